@@ -12,6 +12,7 @@ pub mod c08;
 pub mod c09;
 pub mod c10;
 pub mod c11;
+pub mod c12;
 
 pub fn dispatch(args: &Args, rep: &mut Report) {
     match args.prop.as_str() {
@@ -26,6 +27,7 @@ pub fn dispatch(args: &Args, rep: &mut Report) {
         "C09" => c09::run(args, rep),
         "C10" => c10::run(args, rep),
         "C11" => c11::run(args, rep),
+        "C12" => c12::run(args, rep),
         p => {
             eprintln!("unknown property {p}");
             std::process::exit(2);
